@@ -91,7 +91,7 @@ QUICK_LAYOUTS = ["n2:f0:p0:m0", "n1:f0:p1:m0", "n0:f0:p0:m0", "n1:fD:p1:m3", "n1
 HARNESSES = [
     {"fn": "h_field", "cases": CASES, "quick_cases": QUICK, "timeout": {"quick": 60, "thorough": 300}},
     {"fn": "h_layout", "cases": LAYOUTS, "quick_cases": QUICK_LAYOUTS, "timeout": {"quick": 60, "thorough": 300}},
-    {"fn": "h_registry", "cases": ["BD", "BD:small6", "BD:small9", "11", "BC", "11:afterBD", "BD:after11"], "quick_cases": ["BD", "11", "BC", "11:afterBD"], "timeout": {"quick": 60, "thorough": 300}},
+    {"fn": "h_registry", "cases": ["BD", "BD:small6", "BD:small9", "11", "BC", "11:afterBD", "BD:after11", "BD:letters"], "quick_cases": ["BD", "11", "BC", "11:afterBD", "BD:letters"], "timeout": {"quick": 60, "thorough": 300}},
     {"fn": "h_procedure", "cases": ["O", "B"], "timeout": {"quick": 60, "thorough": 300}},
     {"fn": "h_two_srcs", "cases": ["PS-SS", "SS-PS:wc5"], "timeout": {"quick": 60, "thorough": 300}},
 ]
@@ -424,6 +424,7 @@ FIXTURE_REGISTRY = [
      "Documentation": {"Message": "Power fault on rail %1", "MessageArgSources": ["SRCWord5"]}},
     {"Name": "x.C", "SRC": {"ReasonCode": "0x0301", "Type": "BC"}, "Documentation": {"Message": "Hostboot says hi"}},
     {"Name": "x.D", "SRC": {"Type": "BD"}, "Documentation": {"Message": "never: no reason code"}},
+    {"Name": "x.E", "SRC": {"ReasonCode": "0x2A3F"}, "Documentation": {"Message": "Letters matter"}},
 ]
 
 
@@ -433,7 +434,8 @@ def h_registry() -> bool:
     """
     kind = CASE.split(":")[0]
     small = CASE.split(":")[1] if ":" in CASE else ""
-    c = sym_int("c", 0x30, 0x31 if small.startswith("after") else (0x30 if small else 0x39))   # last character of the reason code: '0'..'9'
+    letters = small == "letters"            # a reason code with hex letters: 2A3E / 2A3F
+    c = sym_int("c", 0x45 if letters else 0x30, 0x46 if letters else (0x31 if small.startswith("after") else (0x30 if small else 0x39)))   # last character of the reason code'
     # hex(word) has a value-dependent digit count (one fork per count): only the word named by the case
     # ranges over all 32-bit values, the others over the 8-digit values
     w = [sym_int("w%d" % i, 0 if small == "small%d" % i else 0x10000000, 0xFFFFFFFF) for i in (5, 6, 7, 8, 9)]
@@ -441,6 +443,8 @@ def h_registry() -> bool:
     for j, i in enumerate((5, 6, 7, 8, 9)):
         words[i - 2] = w[j]
     prefix = {"BD": b"BD8D203", "11": b"1100203", "BC": b"BC8A030"}[kind]
+    if letters:
+        prefix = b"BD8D2A3"
     ascii = mkbytes(prefix, [c], b" " * 24)
     data = build_src(kind, "PS", with_co=False, words=words, ascii=ascii)
     saved = srcmod.registry.pels
@@ -462,7 +466,12 @@ def h_registry() -> bool:
     def hexw(v):          # hex(word) rendering used in messages: value compared numerically
         return v
 
-    if kind == "BD" and c == 0x30:
+    if letters:
+        if c == 0x46:
+            conds.append(ed is not None and ed.get("Message") == "Letters matter" and list(ed.keys()) == ["Message"])
+        else:
+            conds.append(ed is None)
+    elif kind == "BD" and c == 0x30:
         conds.append(ed is not None)
         if ed is not None:
             msg = ed["Message"]
